@@ -12,7 +12,7 @@ import time
 import uuid
 
 VERIF = os.path.dirname(os.path.dirname(os.path.abspath(__file__)))
-CACHE = os.path.join(VERIF, ".cache")
+CACHE = os.environ.get("VERIF_CACHE") or os.path.join(VERIF, ".cache")
 DRIVER = os.path.join(VERIF, "driver", "target", "release", "mirfacts")
 REPO = os.environ.get("VERIF_REPO", "/repo")
 
